@@ -160,7 +160,9 @@ PROPS["C06"]["claim"] += (" For PLAIN the mechanism side of that contract is pro
                           "(no configured credentials => every HELLO is rejected), an error is terminal, Ready on the server is reachable only from ServerSendWelcome.")
 PROPS["C06"]["level_note"] = ("Relative to the abstract Mechanism contract for CURVE/Noise (cryptography: not applicable) and to negotiate_security_mechanism's contract (assumed). "
                               "When the Verus route cannot decide after an edit (rewrite anchor lost / construct outside the subset), the bounded Kani harness on the real PLAIN mechanism runs as fallback (bounded, never counted as proved).")
-PROPS["C07"]["units"] = ["dec", "framer", "engine", "framebatch", "command", "plain", "greeting"]
+PROPS["C07"]["units"] = ["dec", "framer", "engine", "framebatch", "command", "plain", "greeting", "codec"]
+PROPS["C03"]["units"] = ["dec", "enc", "framer", "c03lem", "codec"]
+PROPS["C04"]["units"] = ["engine", "framer", "c03lem", "dec", "codec"]
 
 PROPS["C18"]["claim"] = ("Record layer only, for ANY cipher (encrypt/decrypt abstract): writers return either an error or a record whose 16-bit big-endian length prefix equals the number of ciphertext bytes that follow; "
                          "the reader (LengthPrefixedFramer::try_read_msg) cuts records exactly at their announced length, consumes them whole and in order, hands each to the cipher exactly once, and leaves an incomplete record untouched "
@@ -215,10 +217,24 @@ PROPS["C11"] = {
   "assumptions": [],
 }
 
+PROPS["C14"] = {
+  "units": ["iface", "route", "egress"],
+  "kani_quick": [], "kani_thorough": [],
+  "claim": "Error mapping only, proved on the verbatim async functions of the session-backed connection interface (ScaConnectionIface): with SNDTIMEO = 0 a full pipe yields would-block at once and the batch is handed back unchanged; "
+           "with SNDTIMEO = -1 send_multipart_owned never answers would-block or timeout (untimed wait); errors are only would-block / timeout / connection-closed; try_send_multipart_owned_sync and try_route_sync hand a refused batch back intact; "
+           "EgressBuffer's message counter (the SNDHWM gate of the session) follows pushes and fully written chunks exactly and ignores control frames. "
+           "Two known findings are reported: send_message / send_multipart turn SNDTIMEO = -1 into a 30 s timed wait followed by would-block.",
+  "level_note": "Elapsed-time accuracy (no earlier than / not unboundedly later), RCVTIMEO on the ingress side, and 'buffering stays within HWM + a fixed allowance under any producer/consumer speeds' are runtime/schedule properties: not covered. "
+                "The pipe (fibre BoundedAsyncSender) and tokio::time::timeout enter as abstract stand-ins: try_send never waits and returns the refused item; a timed send either completes, fails, or elapses.",
+  "technique": "contract-based deductive verification (Verus on extracted async fns; abstract channel/timeout stand-ins) with two recorded known findings",
+  "trusted_base": COMMON_TRUSTED + ["fibre BoundedAsyncSender::{try_send, send} and tokio::time::timeout as abstract stand-ins (units/iface.py glue)", "prelude/time.rs"],
+  "assumptions": ["fibre's try_send returns the refused item unchanged and never reports Sent"],
+}
+
 NOT_BUILT = "check not built yet in this revision (planned, see DESIGN.md section 9)"
 NOT_APPLICABLE = {
  
-  "C09": NOT_BUILT, "C10": NOT_BUILT, "C14": NOT_BUILT, 
+  "C09": NOT_BUILT, "C10": NOT_BUILT, 
   "C08": "lost wake-ups are an invariant over interleavings of individual atomic/channel steps plus a liveness claim; Kani has no threads and Verus would need its own atomic/permission types, i.e. a re-implementation (a model), not the code that runs (DESIGN.md section 6)",
   "C12": "SubscriptionTrie is Arc<RwLock<TrieNode>> nodes with HashMap children and an AtomicUsize: no abstract view without rewriting it (Verus), parking_lot crashes kani-compiler 0.68; non-blocking fan-out is a schedule property",
   "C15": "the deciding state (bytes framed but unwritten in another actor, kernel buffers, the close deadline) spans actors and the OS; no contract over one function expresses 'accepted messages are transmitted within LINGER'",
